@@ -63,7 +63,19 @@ def explore(tier, seed):
             # a rejected file followed by a valid one in the same invocation, on one worker (one read buffer)
             if entry["malformed"] and configured:
                 jobs.append(("batch", label, entry, texts_for(entry)[-1], entry["malformed"][0], n)); n += 1
-        jobs.append(("roundtrip", "native", {"label": "native", "codec": "utf-8", "chars": list("é日")}, "é  :=  '日' ;", (None, "file"), n))
+        jobs.append(("roundtrip", "native", {"label": "native", "codec": "utf-8", "chars": list("é日")}, "é  :=  '日' ;", (None, "file"), n)); n += 1
+        # characters that look like encoding artefacts but are ordinary text: U+FEFF as the first character of the text
+        # (behind the real BOM) and inside it, U+FFFD (a *genuine* replacement character), U+FFFE, NUL. The reference for
+        # these comes from the in-process formatter (no encoding layer at all).
+        special = ["\ufeffa  :=  b ;\n", "a  :=  '\ufeff' ;  //\ufeff\n", "x  :=  '\ufffd' ;  //\ufffd\n", "\ufffd  :=  1 ;", "x  :=  '\ufffe' ;"]
+        for text in special:
+            for bom in BOMS:
+                for transport in ("file", "stdin"):
+                    jobs.append(("special", "UTF-8", table["UTF-8"], text, (bom, transport), n)); n += 1
+            if not text.startswith("\ufeff"):
+                for label in ("UTF-8", "gb18030"):
+                    for transport in ("file", "stdin"):
+                        jobs.append(("special", label, table[label], text, (None, transport), n)); n += 1
 
         def run_job(job):
             kind, label, entry, payload, extra, k = job
@@ -120,7 +132,13 @@ def explore(tier, seed):
                 return (True, res)
             text = payload
             bom, transport = extra
-            formatted = F(text)
+            if kind == "special":
+                import subprocess
+                from common import MC
+                cfgj = json.dumps({"wrap": 120, "begin": "Auto", "fms": True, "tabs": False, "tw": 2, "ci": 2, "le": "Lf"})
+                formatted = subprocess.run([MC, "fmt", cfgj], input=text.encode("utf-8"), stdout=subprocess.PIPE).stdout.decode("utf-8")
+            else:
+                formatted = F(text)
             if formatted is None:
                 return (False, [("machinery", "utf-8 reference run failed", {})])
             if bom:
@@ -130,7 +148,7 @@ def explore(tier, seed):
             else:
                 data = enc(text, entry)
                 want = enc(formatted, entry)
-            case = {"oracle": "c17", "kind": "roundtrip", "encoding": label, "bom": bom, "transport": transport, "text": text, "input_hex": data.hex()}
+            case = {"oracle": "c17", "kind": kind, "encoding": label, "bom": bom, "transport": transport, "text": text, "input_hex": data.hex()}
             if transport == "file":
                 open(f, "wb").write(data)
                 rc, out, err = cli.run(args_enc + [f], hermetic_cfg=sb.empty_cfg)
@@ -177,8 +195,14 @@ def replay(case):
             print("REPLAY: no violation")
             return 0
         text = case["text"]
-        rc, out, err = cli.run([], stdin=text.encode("utf-8"), hermetic_cfg=sb.empty_cfg)
-        formatted = out.decode("utf-8")
+        if case.get("kind") == "special":
+            import subprocess
+            from common import MC
+            cfgj = json.dumps({"wrap": 120, "begin": "Auto", "fms": True, "tabs": False, "tw": 2, "ci": 2, "le": "Lf"})
+            formatted = subprocess.run([MC, "fmt", cfgj], input=text.encode("utf-8"), stdout=subprocess.PIPE).stdout.decode("utf-8")
+        else:
+            rc, out, err = cli.run([], stdin=text.encode("utf-8"), hermetic_cfg=sb.empty_cfg)
+            formatted = out.decode("utf-8")
         if case.get("bom"):
             b, codec = BOMS[case["bom"]]
             want = b + formatted.encode(codec)
